@@ -128,7 +128,7 @@ CHECKS["C13"] = _resmgr("C13",
 CHECKS["C10"] = dict(
     level="fault_enumeration", engine="crashx",
     technique="explicit-state search over cache operation histories; for the last operation of every history: enumeration of every crash state of the real state directory (step boundaries and partial-write prefixes), each reloaded and continued by one more operation; every single step failure through an os shim; exhaustive permission matrix",
-    rule="all histories of 20 cache operations (incl. a pod whose resources arrive asynchronously from the pod resources API after InsertPod has saved, and a plugin restart: a new cache instance on the same state directory, not rendered before the next save) up to the depth bound on a real cache that starts on a fresh state directory (the very first save, into a directory without a cache file, is hooked and judged too); per operation: snapshots of the REAL state directory before and after every intercepted filesystem step (steps made through an opened *os.File show up as the difference of two snapshots) and, between two snapshots, every sequential-overwrite prefix new[:k]+old[k:] of each changed file (every k for the cache file; first, middle and last for other files) are materialised; each crash state must load, load to the previous or a newly completed snapshot, and be continuable: a new instance on it makes one more (shrinking) change, saves, and the directory must load to that instance's view; every primitive step is made to fail once "
+    rule="all histories of 22 cache operations (also resetting the active policy and the refresh Synchronize performs) (incl. a pod whose resources arrive asynchronously from the pod resources API after InsertPod has saved, and a plugin restart: a new cache instance on the same state directory, not rendered before the next save) up to the depth bound on a real cache that starts on a fresh state directory (the very first save, into a directory without a cache file, is hooked and judged too); per operation: snapshots of the REAL state directory before and after every intercepted filesystem step (steps made through an opened *os.File show up as the difference of two snapshots) and, between two snapshots, every sequential-overwrite prefix new[:k]+old[k:] of each changed file (every k for the cache file; first, middle and last for other files) are materialised; each crash state must load, load to the previous or a newly completed snapshot, and be continuable: a new instance on it makes one more (shrinking) change, saves, and the directory must load to that instance's view; every primitive step is made to fail once "
          "(EIO, also with short writes); target x kind x all 512 modes for the permission clause; non-trivial = histories containing a container / refused permission cases",
     bound=dict(quick="depth 3 histories; 7680 permission cases", thorough="depth 5 histories; 7680 permission cases"),
     assumptions=["crash = process kill or failed system call (no power-loss / unsynced-data model; the code does not fsync)",
